@@ -336,6 +336,37 @@ def applyWrites : Heap → List (Nat × Obj) → Heap
 
 def applyEdit (h : Heap) (e : Edit) : Heap := applyWrites (h ++ e.allocs) e.writes
 
+/-- `c.parent = p` -/
+def setPar (fs : List Field) (p : Nat) : List Field :=
+  if fs.any (fun f => match f with | .par _ => true | _ => false) then
+    fs.map fun f => match f with | .par _ => .par p | g => g
+  else fs ++ [.par p]
+
+/-- `holder.add_class(c)`: `holder.classes[c.name] = c; c.parent = holder` -/
+def addClassEdit (h : Heap) (holder c : Nat) : Edit :=
+  match h[holder]?, h[c]? with
+  | some oh, some oc =>
+    { allocs := []
+      writes := [(holder, { oh with fields := oh.fields ++ [.own c] }), (c, { oc with fields := setPar oc.fields holder })] }
+  | _, _ => { allocs := [], writes := [] }
+
+/-- a variant with move semantics: the class is first popped, by name, from the `classes` of the
+    parent it still has (for a copy made by `find_class`/`deepcopy` that is the original's parent) -/
+def addClassMoveEdit (h : Heap) (holder c : Nat) : Edit :=
+  match h[c]? with
+  | none => addClassEdit h holder c
+  | some oc =>
+    match parentOfFields oc.fields with
+    | none => addClassEdit h holder c
+    | some p =>
+      match h[p]? with
+      | none => addClassEdit h holder c
+      | some op =>
+        { allocs := []
+          writes := (p, { op with fields := op.fields.filter fun f => match f with
+                            | .own i => !(isClassNamed h oc.name i)
+                            | _ => true }) :: (addClassEdit h holder c).writes }
+
 /-- labels in preorder: a decidable fingerprint of a view (used by the counterexamples) -/
 def viewLabels (h : Heap) : Nat → Nat → List String
   | 0, _ => ["…"]
